@@ -229,6 +229,9 @@ class Circuit:
         # When grouping use unpacked circuit
         if group:
             circuit = circuit_copy
+        # Otherwise still use a copy so the original is never modified
+        else:
+            circuit = circuit.copy()
         spec = circuit.__circuit_spec
         # Check circuit size is valid
         n_heralds = len(circuit.heralds["input"])
